@@ -78,11 +78,24 @@ def run(ctx):
     ctx.cov["idiom_programs"] = len(idi)
     ctx.cov["programs"] = len(cases)
 
+    # frames that grow the operand stack past its initial capacity: compared by their output and final state only (a trace of
+    # 9000 stack slots at each of 9000 boundaries would be 81 million values)
+    bigs = gen_mod.big_frame_modules(L, tab)
+    blines = ["vm.run 40000 0 %s" % b.hex() for _, b in bigs]
+    bm = common.batch(driver, blines, timeout=3000)[0]
+    bp = common.batch_robust(probe, blines, timeout=3000, env=env)
+    big_fail = []
+    for (lab, b), a, c in zip(bigs, bm, bp):
+        ctx.case(lab)
+        if a != c or "dangling=true" in c or c.startswith("CRASH"):
+            big_fail.append({"case": lab, "why": "a frame that grew the operand stack past its initial capacity ends differently from the model (value lost, count lost or crash)",
+                             "model": a[-300:], "impl": c[-300:], "module_hex": b.hex()[:4000]})
+    ctx.cov["big_frame_programs"] = len(bigs)
     fuel = 2500
     lines = ["vm.run %d 1 %s" % (fuel, b.hex()) for _, b in cases]
     md = common.batch(driver, lines, timeout=3000)[0]
     pd = common.batch_robust(probe, lines, timeout=3000, env=env)
-    oracle_fail, disagreements = [], []
+    oracle_fail, disagreements = list(big_fail), []
     boundaries = 0
     heapsteps = 0
     for (lab, b), a, c in zip(cases, md, pd):
